@@ -1061,6 +1061,10 @@ func (env *Zlisp) LeftBindingPower(sx Sexp) (int, error) {
 		return 0, nil
 	case *SexpStr:
 		return 0, nil
+	case *SexpSentinel, *SexpChar:
+		// nil and character literals are atoms like the above: they start
+		// the next statement, they never bind to the left.
+		return 0, nil
 	case *SexpSymbol:
 		op, found := env.infixOps[x.name]
 		if x.name == "if" {
